@@ -1331,7 +1331,9 @@ class Schema(utils.Formattable, utils.JSONConvertible):
   def to_json(self, **kwargs) -> Dict[str, Any]:
     return self.to_json_dict(
         fields=dict(
-            fields=(list(self._fields.values()), []),
+            # NOTE: `fields` is a required argument of `Schema.__init__`, so it
+            # is always emitted (even when empty).
+            fields=(list(self._fields.values()), None),
             name=(self._name, None),
             description=(self._description, None),
             allow_nonconst_keys=(self._allow_nonconst_keys, False),
